@@ -1,43 +1,43 @@
 (* Class-level slots that are looked up through the method resolution order.
      class K:           A = None                      (or no A at all)
      def get(cls):      if cls.A is None (or: if not cls.A): cls.A = compute(cls)        - the store goes to the class the call was made on
-                        return cls.A                                                    - the READ walks cls, then its bases, in MRO order
-   A class body may define A itself (the generated classes define _XSD_TREE that way): that value is found first and nothing is ever stored.
+                        return cls.A                                                    - the READ walks cls, then its bases, in MRO order and
+                                                                                          stops at the FIRST class whose dictionary binds A
+   A class body may bind A itself: to a value the guard accepts (the generated classes bind _XSD_TREE that way: found first, nothing is ever
+   stored), or to a value the guard rejects (A = None, A = []: the walk stops there all the same, the guard fails and the class in use computes
+   and stores its own).  A store replaces whatever the body of that class bound.  What is computed may itself be rejected by the guard (an empty
+   list under a truthiness guard): it is stored and returned, and computed again next time.
    Threads interleave at the two points of the function: the guard (a lookup) and the store.  What a use of class d returns when it runs alone
-   in a fresh process is  expected d.  The theorem: when no class that is ever used inherits - unshadowed - from another class that is ever
-   used and whose slot is filled lazily, EVERY interleaving of EVERY number of uses gives every use exactly  expected d.  The refutation: one
-   base class and one class derived from it, both filled lazily; the derived class used after the base class obtains the base's table. *)
+   in a fresh process is  expected d.  The theorem: when no class that is ever used finds - unshadowed by an accepted body binding - another
+   class that is ever used and is filled lazily on its lookup path, EVERY interleaving of EVERY number of uses gives every use exactly
+   expected d.  The refutation: one base class and one class derived from it, both filled lazily; the derived class used after the base class
+   obtains the base's table. *)
 From Coq Require Import List Arith Bool Lia.
 Import ListNotations.
 
 Section Slots.
   Variable T : Type.
   Variable mro : nat -> list nat.              (* the strict ancestors of a class, in lookup order *)
-  Variable body : nat -> option T.             (* the value the class body itself gives to A (a value the guard accepts), if any *)
-  Variable compute : nat -> T.                 (* what the lazy initialisation computes for the class it runs on *)
+  Variable body : nat -> option (option T).    (* None: the class body does not bind A; Some None: binds a value the guard rejects; Some (Some v): binds v *)
+  Variable compute : nat -> option T.          (* what the lazy initialisation computes for the class it runs on (None: a value the guard rejects) *)
   Variable U : nat -> Prop.                    (* the classes the program ever uses *)
 
-  Definition store := nat -> option T.
-  Definition upd (d:nat) (v:T) (s:store) : store := fun x => if Nat.eqb x d then Some v else s x.
-  Fixpoint first_some (l:list nat) (f:nat -> option T) : option T :=
-    match l with [] => None | x :: r => match f x with Some v => Some v | None => first_some r f end end.
-  Definition val (s:store) (x:nat) : option T := match body x with Some v => Some v | None => s x end.
-  Definition lookup (s:store) (d:nat) : option T := first_some (d :: mro d) (val s).
-  Definition static (d:nat) : option T := first_some (d :: mro d) body.
-  Definition expected (d:nat) : T := match static d with Some v => v | None => compute d end.
+  Definition store := nat -> option (option T).
+  Definition upd (d:nat) (b:option T) (s:store) : store := fun x => if Nat.eqb x d then Some b else s x.
+  Fixpoint first_bound (l:list nat) (f:nat -> option (option T)) : option (option T) :=
+    match l with [] => None | x :: r => match f x with Some b => Some b | None => first_bound r f end end.
+  Definition val (s:store) (x:nat) : option (option T) := match s x with Some b => Some b | None => body x end.
+  Definition flat (o:option (option T)) : option T := match o with Some (Some v) => Some v | _ => None end.
+  Definition lookup (s:store) (d:nat) : option T := flat (first_bound (d :: mro d) (val s)).
   Definition empty : store := fun _ => None.
-
-  Lemma alone d : lookup empty d = static d.
-  Proof.
-    unfold lookup, static. generalize (d :: mro d). induction l as [|x r IH]; simpl; auto.
-    unfold val at 1. destruct (body x); auto.
-  Qed.
+  Definition static (d:nat) : option T := lookup empty d.
+  Definition expected (d:nat) : option T := match static d with Some v => Some v | None => compute d end.
 
   (* ---- threads: each runs  guard ; [store] ; return  on its own class ---- *)
-  Inductive tstate := Start (d:nat) | Storing (d:nat) | Done (d:nat) (v:T).
+  Inductive tstate := Start (d:nat) | Storing (d:nat) | Done (d:nat) (v:option T).
   Definition tstep (s:store) (t:tstate) : store * tstate :=
     match t with
-    | Start d => match lookup s d with Some v => (s, Done d v) | None => (s, Storing d) end
+    | Start d => match lookup s d with Some v => (s, Done d (Some v)) | None => (s, Storing d) end
     | Storing d => (upd d (compute d) s, Done d (compute d))
     | Done d v => (s, t)
     end.
@@ -46,27 +46,30 @@ Section Slots.
     match nth_error (snd st) tid with None => st | Some t => let '(s', t') := tstep (fst st) t in (s', set_nth tid t' (snd st)) end.
   Definition srun (sched:list nat) (st:store * list tstate) : store * list tstate := fold_left sstep sched st.
 
-  (* no class in use sees, unshadowed, the lazily filled slot of another class in use *)
-  Definition shadowed_before (d c:nat) : Prop := exists pre post, d :: mro d = pre ++ c :: post /\ exists x, In x pre /\ body x <> None.
+  (* no class in use finds, unshadowed, another class in use that is filled lazily *)
+  Definition accepted_body (x:nat) : Prop := exists v, body x = Some (Some v).
+  Definition shadowed_before (d c:nat) : Prop := exists pre post, d :: mro d = pre ++ c :: post /\ exists x, In x pre /\ accepted_body x.
   Hypothesis mro_nodup : forall d, NoDup (d :: mro d).
-  Hypothesis no_inherited_lazy_slot : forall d c, U d -> U c -> In c (mro d) -> body c = None -> shadowed_before d c.
+  Hypothesis no_inherited_lazy_slot : forall d c, U d -> U c -> In c (mro d) -> ~ accepted_body c -> shadowed_before d c.
 
-  Definition Inv (s:store) : Prop := forall x v, s x = Some v -> U x /\ v = compute x /\ static x = None.
+  Definition Inv (s:store) : Prop := forall x b, s x = Some b -> U x /\ b = compute x /\ static x = None.
 
-  Lemma first_some_none l f : first_some l f = None <-> forall x, In x l -> f x = None.
+  Lemma first_bound_none l f : first_bound l f = None <-> forall x, In x l -> f x = None.
   Proof.
     induction l as [|a r IH]; simpl; split; intros H; auto.
     - intros x [].
     - destruct (f a) eqn:E; [discriminate|]. intros x [<-|I]; auto. apply IH; auto.
     - rewrite (H a) by auto. apply IH. intros x I. apply H. auto.
   Qed.
-  Lemma first_some_split l f v : first_some l f = Some v -> exists pre c post, l = pre ++ c :: post /\ f c = Some v /\ forall x, In x pre -> f x = None.
+  Lemma first_bound_split l f b : first_bound l f = Some b -> exists pre c post, l = pre ++ c :: post /\ f c = Some b /\ forall x, In x pre -> f x = None.
   Proof.
     induction l as [|a r IH]; simpl; [discriminate|]. destruct (f a) eqn:E.
     - intros [= <-]. exists [], a, r. split; auto. split; auto. intros x [].
     - intros H. destruct (IH H) as (pre & c & post & -> & Fc & Hp). exists (a :: pre), c, post. split; auto. split; auto.
       intros x [<-|I]; auto.
   Qed.
+  Lemma first_bound_at pre c post f b : (forall x, In x pre -> f x = None) -> f c = Some b -> first_bound (pre ++ c :: post) f = Some b.
+  Proof. induction pre as [|a r IH]; simpl; intros H Fc; [rewrite Fc; auto|]. rewrite (H a) by auto. apply IH; auto. Qed.
   Lemma split_unique (pre pre' post post':list nat) c : pre ++ c :: post = pre' ++ c :: post' -> ~ In c pre -> ~ In c pre' -> pre = pre'.
   Proof.
     revert pre'. induction pre as [|a r IH]; intros [|a' r'] E N N'; simpl in *; auto.
@@ -74,48 +77,46 @@ Section Slots.
     - injection E as -> _. exfalso. apply N. auto.
     - injection E as <- E. f_equal. apply IH with (pre' := r'); auto.
   Qed.
+  Lemma val_none s x : val s x = None -> s x = None /\ body x = None.
+  Proof. unfold val. destruct (s x); [discriminate|auto]. Qed.
 
-  (* in a state built by the library's own stores, a class in use finds nothing or exactly what it finds alone *)
-  Lemma lookup_sound s d : Inv s -> U d -> lookup s d = None \/ lookup s d = Some (expected d).
+  (* where the walk of a class in use ends, in a state built by the library's own stores: at its own stored value, or exactly where it ends
+     in a fresh process *)
+  Lemma walk_sound s d : Inv s -> U d ->
+    (exists b, s d = Some b /\ first_bound (d :: mro d) (val s) = Some b) \/ first_bound (d :: mro d) (val s) = first_bound (d :: mro d) (val empty).
   Proof.
-    intros I Ud. destruct (lookup s d) as [v|] eqn:L; auto. right. f_equal.
-    unfold lookup in L. apply first_some_split in L as (pre & c & post & E & Fc & Hp).
-    unfold val in Fc. destruct (body c) as [b|] eqn:Bc.
-    - (* a body-defined value is found first: the same as alone *)
-      injection Fc as ->. unfold expected, static. rewrite E.
-      assert (G: forall l, (forall x, In x l -> val s x = None) -> first_some (l ++ c :: post) body = Some v).
-      { induction l as [|a r IH]; simpl; intros H; [rewrite Bc; auto|].
-        assert (Ha := H a (or_introl eq_refl)). unfold val in Ha. destruct (body a); [discriminate|]. apply IH. intros x Ix. apply H. auto. }
-      rewrite (G pre Hp). reflexivity.
-    - (* a stored value: it is the class's own *)
-      destruct (I c v Fc) as (Uc & -> & Sc).
-      assert (Pre: forall x, In x pre -> body x = None).
-      { intros x Ix. specialize (Hp x Ix). unfold val in Hp. destruct (body x); auto; discriminate. }
-      destruct pre as [|p pre'].
-      + simpl in E. injection E as <- _. unfold expected. rewrite Sc. reflexivity.
-      + simpl in E. injection E as <- E. assert (Ic: In c (mro d)) by (rewrite E; apply in_or_app; right; left; auto).
-        destruct (no_inherited_lazy_slot d c Ud Uc Ic Bc) as (pre2 & post2 & E2 & x & Ix & Bx).
-        exfalso.
-        (* c occurs once on the path: the two splits coincide, so a body-defined class would precede the hit - but everything before it is body-free *)
-        assert (ND := mro_nodup d).
-        assert (E1: d :: mro d = (d :: pre') ++ c :: post) by (simpl; f_equal; exact E).
-        assert (N1: ~ In c (d :: pre')).
-        { rewrite E1 in ND. apply NoDup_remove_2 in ND. intros H. apply ND. apply in_or_app. auto. }
-        assert (N2: ~ In c pre2).
-        { rewrite E2 in ND. apply NoDup_remove_2 in ND. intros H. apply ND. apply in_or_app. auto. }
-        assert (EQ: d :: pre' = pre2) by (apply (split_unique _ _ post post2 c); [rewrite <- E1; exact E2|exact N1|exact N2]).
-        apply Bx. apply Pre. rewrite EQ. exact Ix.
+    intros I Ud. destruct (first_bound (d :: mro d) (val s)) as [b|] eqn:L.
+    - destruct (first_bound_split _ _ _ L) as (pre & c & post & E & Fc & Hp).
+      assert (Pre: forall x, In x pre -> val empty x = None).
+      { intros x Ix. destruct (val_none _ _ (Hp x Ix)) as (_ & Bx). unfold val, empty. exact Bx. }
+      unfold val in Fc. destruct (s c) as [b'|] eqn:Sc.
+      + injection Fc as ->. destruct (I c b Sc) as (Uc & Eb & Stc).
+        destruct pre as [|p pre'].
+        * simpl in E. injection E as <- _. left. exists b. auto.
+        * exfalso. simpl in E. injection E as <- E. assert (Ic: In c (mro d)) by (rewrite E; apply in_or_app; right; left; auto).
+          assert (NA: ~ accepted_body c).
+          { intros (v & Bv). unfold static, lookup in Stc. simpl in Stc. unfold val at 1, empty in Stc. rewrite Bv in Stc. discriminate. }
+          destruct (no_inherited_lazy_slot d c Ud Uc Ic NA) as (pre2 & post2 & E2 & x & Ix & (v & Bx)).
+          assert (ND := mro_nodup d).
+          assert (E1: d :: mro d = (d :: pre') ++ c :: post) by (simpl; f_equal; exact E).
+          assert (N1: ~ In c (d :: pre')).
+          { rewrite E1 in ND. apply NoDup_remove_2 in ND. intros H. apply ND. apply in_or_app. auto. }
+          assert (N2: ~ In c pre2).
+          { rewrite E2 in ND. apply NoDup_remove_2 in ND. intros H. apply ND. apply in_or_app. auto. }
+          assert (EQ: d :: pre' = pre2) by (apply (split_unique _ _ post post2 c); [rewrite <- E1; exact E2|exact N1|exact N2]).
+          rewrite <- EQ in Ix. destruct (val_none _ _ (Hp x Ix)) as (_ & Bn). congruence.
+      + right. rewrite E. symmetry. apply first_bound_at; [exact Pre|unfold val, empty; exact Fc].
+    - right. symmetry. apply first_bound_none. rewrite first_bound_none in L. intros x Ix. destruct (val_none _ _ (L x Ix)) as (_ & Bx). unfold val, empty. exact Bx.
   Qed.
-  Lemma lookup_none_expected s d : lookup s d = None -> expected d = compute d /\ static d = None.
+  Lemma lookup_sound s d : Inv s -> U d -> (lookup s d = None /\ static d = None) \/ (exists v, lookup s d = Some v /\ expected d = Some v).
   Proof.
-    intros L. unfold lookup in L. rewrite first_some_none in L.
-    assert (S: static d = None).
-    { unfold static. apply first_some_none. intros x Ix. specialize (L x Ix). unfold val in L. destruct (body x); auto; discriminate. }
-    unfold expected. rewrite S. auto.
+    intros I Ud. destruct (walk_sound s d I Ud) as [(b & Sd & W)|W].
+    - destruct (I d b Sd) as (_ & -> & St). unfold lookup. rewrite W. unfold expected. rewrite St. destruct (compute d) as [v|]; simpl; [right; exists v; auto|left; auto].
+    - unfold lookup. rewrite W. fold (lookup empty d). fold (static d). unfold expected. destruct (static d) as [v|]; [right; exists v; auto|left; auto].
   Qed.
   Lemma upd_inv s d : Inv s -> U d -> static d = None -> Inv (upd d (compute d) s).
   Proof.
-    intros I Ud Sd x v. unfold upd. destruct (Nat.eqb_spec x d) as [->|Ne]; [intros [= <-]; auto|apply I].
+    intros I Ud Sd x b. unfold upd. destruct (Nat.eqb_spec x d) as [->|Ne]; [intros [= <-]; auto|apply I].
   Qed.
 
   Definition tinv (t:tstate) : Prop :=
@@ -127,9 +128,7 @@ Section Slots.
     intros I F. unfold sstep. destruct (nth_error (snd st) tid) as [t|] eqn:N; auto.
     assert (Ht: tinv t) by (rewrite Forall_forall in F; apply F; eapply nth_error_In; eauto).
     destruct t as [d|d|d v]; simpl in *.
-    - destruct (lookup (fst st) d) as [v|] eqn:L; simpl; split; auto; apply set_nth_Forall; auto; simpl.
-      + destruct (lookup_sound (fst st) d I Ht) as [E|E]; rewrite E in L; [discriminate|]. injection L as <-. reflexivity.
-      + split; auto. apply (lookup_none_expected _ _ L).
+    - destruct (lookup_sound (fst st) d I Ht) as [(L & S)|(v & L & E)]; rewrite L; simpl; split; auto; apply set_nth_Forall; auto; simpl; auto.
     - destruct Ht as (Ud & Sd). split; [apply upd_inv; auto|]. apply set_nth_Forall; auto. simpl. unfold expected. rewrite Sd. reflexivity.
     - split; auto. apply set_nth_Forall; auto.
   Qed.
@@ -145,22 +144,36 @@ Section Slots.
     - simpl. rewrite Forall_forall in *. intros x Ix. apply in_map_iff in Ix as (y & <- & Iy). simpl. auto.
     - intros It ->. rewrite Forall_forall in F. apply (F _ It).
   Qed.
-  (* and alone it is the same value: the first use of d in a fresh process *)
-  Lemma alone_expected d : snd (fst (tstep empty (Start d)), match snd (tstep empty (Start d)) with Storing _ => Done d (compute d) | t => t end) = Done d (expected d).
+  (* and alone it is that value: the only thread of a fresh process, run to its end *)
+  Lemma alone_expected d : nth_error (snd (srun [0; 0] (empty, [Start d]))) 0 = Some (Done d (expected d)).
   Proof.
-    simpl. rewrite alone. unfold expected. destruct (static d); reflexivity.
+    unfold srun, sstep, expected, static. simpl. destruct (lookup empty d) as [v|] eqn:L; simpl; rewrite ?L; reflexivity.
   Qed.
 End Slots.
 
-(* ---- the refutation: class 1 derives from class 0, neither body defines the slot, both are in use ---- *)
+(* ---- the refutation: class 1 derives from class 0, neither body binds the slot, both are in use ---- *)
 Definition ex_mro (c:nat) : list nat := match c with 1 => [0] | _ => [] end.
-Definition ex_body (c:nat) : option (list nat) := None.
-Definition ex_compute (c:nat) : list nat := match c with 0 => [1;2;3;4;5] | _ => [1;3;5] end.
+Definition ex_body (c:nat) : option (option (list nat)) := None.
+Definition ex_compute (c:nat) : option (list nat) := match c with 0 => Some [1;2;3;4;5] | _ => Some [1;3;5] end.
 Example inherited_slot_refuted : exists sched,
-  nth_error (snd (srun (list nat) ex_mro ex_body ex_compute sched (empty (list nat), [Start (list nat) 0; Start (list nat) 1]))) 1 = Some (Done (list nat) 1 [1;2;3;4;5])
-  /\ expected (list nat) ex_mro ex_body ex_compute 1 = [1;3;5].
+  nth_error (snd (srun (list nat) ex_mro ex_body ex_compute sched (empty (list nat), [Start (list nat) 0; Start (list nat) 1]))) 1 = Some (Done (list nat) 1 (Some [1;2;3;4;5]))
+  /\ expected (list nat) ex_mro ex_body ex_compute 1 = Some [1;3;5].
 Proof. exists [0;0;1]. vm_compute. split; reflexivity. Qed.
 (* the same two classes used in the other order are both right: the defect depends on who comes first *)
 Example inherited_slot_other_order :
-  nth_error (snd (srun (list nat) ex_mro ex_body ex_compute [1;1;0;0] (empty (list nat), [Start (list nat) 0; Start (list nat) 1]))) 1 = Some (Done (list nat) 1 [1;3;5]).
+  nth_error (snd (srun (list nat) ex_mro ex_body ex_compute [1;1;0;0] (empty (list nat), [Start (list nat) 0; Start (list nat) 1]))) 1 = Some (Done (list nat) 1 (Some [1;3;5])).
 Proof. vm_compute. reflexivity. Qed.
+(* a derived class whose own body binds the slot to a rejected value (A = None) is immune: the walk stops at its own dictionary *)
+Example own_rejected_binding_is_immune :
+  nth_error (snd (srun (list nat) ex_mro (fun c => match c with 1 => Some None | _ => None end) ex_compute [0;0;1;1] (empty (list nat), [Start (list nat) 0; Start (list nat) 1]))) 1
+  = Some (Done (list nat) 1 (Some [1;3;5])).
+Proof. vm_compute. reflexivity. Qed.
+
+(* ---- executable instance for the correspondence with CPython's attribute lookup on the library's own classes (vlib/c20.py, slot_correspondence):
+        a slot value is identified by the class it was computed on / whose body binds it; bodies: 0 unbound, 1 bound to a rejected value, 2 bound ---- *)
+Definition own_mro (mros:list (list nat)) (c:nat) : list nat := nth c mros [].
+Definition own_body (bodies:list nat) (c:nat) : option (option nat) := match nth c bodies 0 with 0 => None | 1 => Some None | _ => Some (Some c) end.
+Definition own_result (t:tstate nat) : option nat := match t with Done _ _ v => v | _ => None end.
+Definition owner_run (mros:list (list nat)) (bodies:list nat) (uses sched:list nat) : list (option nat) * list (option nat) :=
+  let st := srun nat (own_mro mros) (own_body bodies) (fun d => Some d) sched (empty nat, map (Start nat) uses) in
+  (map own_result (snd st), map (lookup nat (own_mro mros) (own_body bodies) (fst st)) (seq 0 (length mros))).
